@@ -6,7 +6,8 @@
 //   Ok(casm) ==> entry points strictly sorted by selector (each kind)
 //             && every bytecode word < prime  && segment lengths add up to bytecode.len()
 //             && hint offsets strictly increasing and inside the bytecode
-//             && every entry-point offset inside the bytecode
+//             && every entry-point offset is the first instruction of the function it names
+//             && its builtin list is exactly that function's builtin parameters, in protocol order
 //   a class whose lists are not strictly increasing is rejected (never accepted)
 //   compiling twice gives the same class (reproducible).
 #![allow(dead_code, unused_imports)]
@@ -33,6 +34,36 @@ fn classes() -> Vec<(String, ContractClass)> {
 fn compile(class: ContractClass) -> Result<CasmContractClass, String> {
     let program = class.extract_sierra_program(false).map_err(|e| format!("{e}"))?;
     CasmContractClass::from_contract_class(class, program, false, usize::MAX).map_err(|e| format!("{e}"))
+}
+/// "each entry point's offset is the first instruction of the function it names, its builtin list is
+/// exactly the function's builtin parameters in protocol order" - checked against the Sierra
+/// program of the class and the statement offsets of the compilation's debug info.
+fn entry_points_match_functions(class: &ContractClass) -> Option<String> {
+    let extracted = class.extract_sierra_program(false).ok()?;
+    let program = extracted.program.clone();
+    let (casm, dbg) = CasmContractClass::from_contract_class_with_debug_info(class.clone(), extracted, false, usize::MAX).ok()?;
+    let builtin_name = |generic: &str| -> Option<&'static str> { Some(match generic {
+        "Pedersen" => "pedersen", "RangeCheck" => "range_check", "Bitwise" => "bitwise", "EcOp" => "ec_op", "Poseidon" => "poseidon",
+        "SegmentArena" => "segment_arena", "RangeCheck96" => "range_check96", "AddMod" => "add_mod", "MulMod" => "mul_mod", _ => return None }) };
+    let protocol_order = ["pedersen", "range_check", "bitwise", "ec_op", "poseidon", "segment_arena", "range_check96", "add_mod", "mul_mod"];
+    for (kind, sierra_eps, casm_eps) in [("external", &class.entry_points_by_type.external, &casm.entry_points_by_type.external), ("l1_handler", &class.entry_points_by_type.l1_handler, &casm.entry_points_by_type.l1_handler), ("constructor", &class.entry_points_by_type.constructor, &casm.entry_points_by_type.constructor)] {
+        if sierra_eps.len() != casm_eps.len() { return Some(format!("{kind}: {} published entry points, {} compiled", sierra_eps.len(), casm_eps.len())); }
+        for (s, c) in sierra_eps.iter().zip(casm_eps.iter()) {
+            if s.selector != c.selector { return Some(format!("{kind}: selector changed by compilation")); }
+            let f = program.funcs.get(s.function_idx)?;
+            let want_off = dbg.sierra_statement_info.get(f.entry_point.0)?.start_offset;
+            if c.offset != want_off { return Some(format!("{kind} entry point {:#x}: offset {} is not the first instruction ({want_off}) of function {}", c.selector, c.offset, f.id)); }
+            let mut want: Vec<&str> = vec![];
+            for p in &f.params {
+                let decl = program.type_declarations.iter().find(|d| d.id == p.ty)?;
+                if let Some(n) = builtin_name(&decl.long_id.generic_id.0) { want.push(n); }
+            }
+            if c.builtins.iter().map(|b| b.as_str()).collect::<Vec<_>>() != want { return Some(format!("{kind} entry point {:#x}: builtins {:?} are not the function's builtin parameters {:?}", c.selector, c.builtins, want)); }
+            let pos: Vec<usize> = c.builtins.iter().filter_map(|b| protocol_order.iter().position(|x| x == b)).collect();
+            if pos.len() != c.builtins.len() || pos.windows(2).any(|w| w[0] >= w[1]) { return Some(format!("{kind} entry point {:#x}: builtins {:?} are not in protocol order", c.selector, c.builtins)); }
+        }
+    }
+    None
 }
 fn sum(l: &NestedIntList) -> usize { match l { NestedIntList::Leaf(n) => *n, NestedIntList::Node(v) => v.iter().map(sum).sum() } }
 fn invariants(c: &CasmContractClass) -> Option<String> {
@@ -61,6 +92,7 @@ fn __verif_n_c19_class_invariants() {
             Ok(Ok(c)) => c,
         };
         if let Some(w) = invariants(&base) { fail = Some((name.clone(), w)); break 'o; }
+        if let Some(w) = entry_points_match_functions(class) { fail = Some((name.clone(), w)); break 'o; }
         match compile(class.clone()) { Ok(c2) if c2 == base => {}, _ => { fail = Some((name.clone(), "compiling the same class twice gives different results".into())); break 'o; } }
         // perturbations of each entry point list
         for kind in 0..3 {
